@@ -279,8 +279,8 @@ def gen_history(rng, quick=True, min_ops=3, max_ops=25):
             "method": rng.choice(["global", "value"]), "npseed": rng.randrange(2 ** 32), "ops": ops}
 
 
-BYSTANDERS = ["figure-fit-savefig", "figure-fit-show", "figure-function", "other-quantity",
-              "other-quantity-display", "decorated", "decorated-raises", "print-other"]
+BYSTANDERS = M.BYSTANDERS
+Bystanders = M.Bystanders
 DISPLAY_BINS = [100, 100, 20, 10, 30, 50, 7, 250, 99, 101]
 
 
@@ -360,78 +360,6 @@ def gen_bystander_history(rng, quick=True):
     h["ops"] = ops
     h["scenario"] = "bystander"
     return h
-
-
-class Bystanders:
-    """things done to other objects during a history (Monte Carlo draws made here are not recorded)"""
-
-    def __init__(self, q, srng):
-        import qexpy.settings.settings as sts
-        self.q, self.rng, self.sts = q, srng, sts
-        self.calls = 0
-
-        # a user's function under a temporary sample size, DEFINED NOW (at the start of the history,
-        # under the global size of that moment) and called later, when the configuration may differ
-        @sts.use_mc_sample_size(77)
-        def under_temporary_size(raises):
-            m = q.Measurement(2.0, 0.3)
-            r = q.exp(m)
-            r.error_method = q.ErrorMethod.MONTE_CARLO
-            _ = r.value, r.error
-            if raises:
-                raise RuntimeError("inside the decorated function")
-            return r.mc.samples().size
-        self.decorated = under_temporary_size
-
-    def run(self, kind):
-        q = self.q
-        self.calls += 1
-        if kind.startswith("figure"):
-            import io
-            import qexpy.plotting as qplt
-            import matplotlib.pyplot as plt
-            try:
-                if kind == "figure-function":
-                    a = q.Measurement(2.0, 0.2)
-                    fig = qplt.plot(lambda x: a * x + 1, xrange=(0, 1))
-                    fig.show()
-                else:
-                    xs = [1, 2, 3, 4, 5, 6]
-                    ys = [2.1 + 0.01 * self.calls, 3.9, 6.2, 7.8, 10.1, 12.2]
-                    fig = qplt.plot(xs, ys, yerr=0.2)
-                    fig.fit(model=q.FitModel.LINEAR)
-                    if kind == "figure-fit-savefig":
-                        fig.savefig(io.BytesIO(), format="png")
-                    else:
-                        fig.show()
-            finally:
-                plt.close("all")
-        elif kind.startswith("other-quantity"):
-            o = q.exp(q.Measurement(0.3, 0.5))
-            o.error_method = q.ErrorMethod.MONTE_CARLO
-            o.mc.sample_size = 33
-            o.mc.use_mode_with_confidence(0.5)
-            o.mc.set_xrange(0.5, 3.0)
-            _ = o.value, o.error
-            o.mc.use_custom_value_and_error(1.0, 0.5)
-            _ = o.value
-            if kind.endswith("display"):
-                import matplotlib.pyplot as plt
-                try:
-                    o.mc.show_histogram(bins=15)
-                finally:
-                    plt.close("all")
-        elif kind.startswith("decorated"):
-            try:
-                self.decorated(kind.endswith("raises"))
-            except RuntimeError:
-                pass
-        elif kind == "print-other":
-            o = q.Measurement(3.0, 0.4) * q.Measurement(2.0, 0.5)
-            o.error_method = q.ErrorMethod.MONTE_CARLO
-            _ = str(o), repr(o)
-        else:
-            raise KeyError(kind)
 
 
 def apply_op(q, d, op, last_samples, cap=None, by=None):
